@@ -299,6 +299,21 @@ func (c *C) attemptConnect(ctx context.Context, lmtp bool, endp config.Endpoint,
 	return true, cl, conn, nil
 }
 
+// cmdErr handles the error returned for a command sent to the server.
+//
+// If it is not a reply of the server (time-out, I/O error) the reply may
+// still arrive, it would be taken for the reply to the next command then and
+// every reply after it for the reply to the command before. The connection is
+// closed: anything done with it later fails instead (including the RSET that
+// decides whether it can be kept for later use).
+func (c *C) cmdErr(err error) error {
+	var smtpErr *smtp.SMTPError
+	if !errors.As(err, &smtpErr) {
+		c.cl.Close()
+	}
+	return c.wrapClientErr(err, c.serverName)
+}
+
 // Mail sends the MAIL FROM command to the remote server.
 //
 // SIZE and REQUIRETLS options are forwarded to the remote server as-is.
@@ -342,7 +357,7 @@ func (c *C) Mail(ctx context.Context, from string, opts smtp.MailOptions) error 
 	}
 
 	if err := c.cl.Mail(from, &outOpts); err != nil {
-		return c.wrapClientErr(err, c.serverName)
+		return c.cmdErr(err)
 	}
 
 	// New transaction, the connection may have been used for another one
@@ -402,7 +417,7 @@ func (c *C) Rcpt(ctx context.Context, to string, opts smtp.RcptOptions) error {
 	}
 
 	if err := c.cl.Rcpt(to, outOpts); err != nil {
-		return c.wrapClientErr(err, c.serverName)
+		return c.cmdErr(err)
 	}
 
 	c.rcpts = append(c.rcpts, originalTo)
@@ -478,7 +493,7 @@ func (c *C) Data(ctx context.Context, hdr textproto.Header, body io.Reader) erro
 
 	wc, err := c.cl.Data()
 	if err != nil {
-		return c.wrapClientErr(err, c.serverName)
+		return c.cmdErr(err)
 	}
 
 	if err := textproto.WriteHeader(wc, hdr); err != nil {
@@ -496,7 +511,7 @@ func (c *C) Data(ctx context.Context, hdr textproto.Header, body io.Reader) erro
 			// waits for.
 			return nil
 		}
-		return c.wrapClientErr(err, c.serverName)
+		return c.cmdErr(err)
 	}
 
 	return nil
@@ -525,7 +540,7 @@ func (c *C) LMTPData(ctx context.Context, hdr textproto.Header, body io.Reader, 
 
 	wc, err := c.cl.LMTPData(statusCb)
 	if err != nil {
-		return c.wrapClientErr(err, c.serverName)
+		return c.cmdErr(err)
 	}
 
 	if err := textproto.WriteHeader(wc, hdr); err != nil {
@@ -537,7 +552,7 @@ func (c *C) LMTPData(ctx context.Context, hdr textproto.Header, body io.Reader, 
 	}
 
 	if err := wc.Close(); err != nil {
-		return c.wrapClientErr(err, c.serverName)
+		return c.cmdErr(err)
 	}
 
 	return nil
